@@ -20,6 +20,7 @@ structure Fixes where
   subMul : Bool := true     -- KF-C11-2 sub_mul_int
   umod : Bool := true       -- KF-C11-3 umod_2exp_signed_int
   isqrt : Bool := true      -- KF-C11-4 isqrt_rem
+  lcm : Bool := true        -- KF-C11-5 lcm_gcd_exact
 deriving Repr, DecidableEq, Inhabited
 
 /-- `div_signed_int` before 5157d9d: the fix-up keyed on the sign of `x % y` alone -/
@@ -79,6 +80,22 @@ def sqrtAsWritten (t : IntTy) (π : Policy) (to0 x : Int) (dir : Dir) : Int × R
 /-- the bit pattern is one of the special values of the policy -/
 def IntTy.special (t : IntTy) (π : Policy) (v : Int) : Bool := t.isNan π v || t.isMinf π v || t.isPinf π v
 
+/-- `lcm_gcd_exact` before 5d13b40: the code of an intermediate `abs` is returned, `to` is left alone -/
+def lcmAsWritten (t : IntTy) (π : Policy) (to0 x y : Int) (dir : Dir) : Int × Result :=
+  if x == 0 || y == 0 then (0, V_EQ)
+  else
+    let (ax, r1) := abs t π 0 x dir
+    if r1 != V_EQ then (to0, r1)
+    else
+      let (ay, r2) := abs t π 0 y dir
+      if r2 != V_EQ then (to0, r2)
+      else
+        let ax := t.wrap ax
+        let ay := t.wrap ay
+        let g := gcdNoAbs t π ax ay
+        let (q, _) := div t π to0 ax g .notNeeded
+        mul t π (t.wrap q) (t.wrap q) ay dir
+
 /-- what the MEASURED tree runs: `IntOp.run` (the repaired code), except that an operation whose
 repair was measured absent runs its as-written primitive (the extended layer reaches the native
 primitive exactly when no operand is a special value) -/
@@ -95,6 +112,9 @@ def IntOp.runM (fx : Fixes) (t : IntTy) (π : Policy) (op : IntOp) (dir : Dir) (
     else IntOp.run t π op dir a
   | .sqrt =>
     if !fx.isqrt && !(t.special π a.x) then sqrtAsWritten t π a.to0 a.x dir
+    else IntOp.run t π op dir a
+  | .lcm =>
+    if !fx.lcm && !(t.special π a.x || t.special π a.y) then lcmAsWritten t π a.to0 a.x a.y dir
     else IntOp.run t π op dir a
   | _ => IntOp.run t π op dir a
 
